@@ -159,7 +159,7 @@ func VJP(in Instr, xs []*T, y, gy *T, rule BroadcastRule) []*T {
 			case "mul":
 				ga.Data[i], gb.Data[i] = g*bv, g*av
 			case "div":
-				ga.Data[i], gb.Data[i] = g/bv, -g*av/(bv*bv)
+				ga.Data[i], gb.Data[i] = g/bv, -g*(av/bv)/bv // (a/b)/b: b*b may overflow where the quotient is representable
 			}
 		}
 		return []*T{unbroadcast(ga, a.Shape, rule), unbroadcast(gb, b.Shape, rule)}
